@@ -8,9 +8,11 @@
 //!      on every observed read. (D1) `never_early` directly: the probe's clock after a reported
 //!      timeout is at least the limit.
 //! (K2) delivery: for every generated script shape the model (`deliverTimeout` on the abstract call
-//!      stack at the moment of detection) predicts whether a `catch` sees the timeout, and which one;
-//!      the real runtime is run on the script (`Koto::compile_and_run` under
-//!      `KotoSettings::with_execution_limit`) and must agree.
+//!      stack at the moment of detection) predicts the delivery of the timeout — since the repair of
+//!      F-C08-1 (5a7e832) always `escaped` (Props/C08 `not_catchable_nested`), wherever try/catch
+//!      handlers lie relative to nested interpreter entries; the real runtime is run on the script
+//!      (`Koto::compile_and_run` under `KotoSettings::with_execution_limit`) and must agree: no
+//!      handler may run.
 //! (D2) the property itself on the real runtime: a non-terminating script returns the timeout error
 //!      no earlier than the limit and within limit + slack, nothing is emitted by a catch handler,
 //!      the same runtime instance afterwards runs a probe script correctly with empty VM stacks;
@@ -47,11 +49,24 @@ fn slack_ms(limit_ms: u64) -> u64 {
 
 /// `run <limit_ms|0> <script hex>` →
 /// `<outcome>|<elapsed_us>|<trace>|<probe>|<regs>,<frames>,<seqb>,<strb>,<base>|<cpu_us>,<runqueue_wait_us>`
-fn worker_run(limit_ms: u64, src: &str) -> String {
-    let settings = if limit_ms > 0 {
-        KotoSettings::default().with_execution_limit(Duration::from_millis(limit_ms))
+/// limit spec: `0` = no limit, `<n>` = milliseconds, `<n>s` = seconds, `max` = `Duration::MAX`
+fn parse_limit(spec: &str) -> Option<Duration> {
+    if spec == "max" {
+        Some(Duration::MAX)
+    } else if let Some(secs) = spec.strip_suffix('s') {
+        Some(Duration::from_secs(secs.parse().unwrap_or(1)))
     } else {
-        KotoSettings::default()
+        match spec.parse::<u64>().unwrap_or(0) {
+            0 => None,
+            ms => Some(Duration::from_millis(ms)),
+        }
+    }
+}
+
+fn worker_run(limit: Option<Duration>, src: &str, script_path: Option<&str>) -> String {
+    let settings = match limit {
+        Some(l) => KotoSettings::default().with_execution_limit(l),
+        None => KotoSettings::default(),
     };
     let trace: Rc<RefCell<Vec<String>>> = Rc::new(RefCell::new(vec![]));
     let mut koto = Koto::with_settings(settings);
@@ -63,7 +78,10 @@ fn worker_run(limit_ms: u64, src: &str) -> String {
     });
     let sched0 = thread_sched_ns();
     let t0 = Instant::now();
-    let r = kvh::catch(|| koto.compile_and_run(src));
+    let r = kvh::catch(|| match script_path {
+        Some(p) => koto.compile_and_run(CompileArgs::new(src).script_path(p)),
+        None => koto.compile_and_run(src),
+    });
     let el = t0.elapsed();
     let sched1 = thread_sched_ns();
     // time this thread spent runnable but waiting for a CPU during the run (0 if unavailable)
@@ -138,7 +156,12 @@ fn worker_main() {
         match f.as_slice() {
             ["run", lim, hexs] => {
                 let src = String::from_utf8(kvh::unhex(hexs).unwrap_or_default()).unwrap_or_default();
-                worker_run(lim.parse().unwrap_or(0), &src)
+                worker_run(parse_limit(lim), &src, None)
+            }
+            ["run", lim, hexs, path] => {
+                let src = String::from_utf8(kvh::unhex(hexs).unwrap_or_default()).unwrap_or_default();
+                let path = String::from_utf8(kvh::unhex(path).unwrap_or_default()).unwrap_or_default();
+                worker_run(parse_limit(lim), &src, Some(&path))
             }
             ["h4", lim, maxc, work] => worker_h4(lim.parse().unwrap(), maxc.parse().unwrap(), work.parse().unwrap()),
             ["rate"] => (if cfg!(debug_assertions) { "debug" } else { "release" }).to_string(),
@@ -182,6 +205,11 @@ enum Layer {
     GenFor,
     GenNext,
     MetaNext,
+    /// `@iterator` reached through the public `make_iterator` (native `iterator.count`), which runs
+    /// it with `run_unary_op` in a nested entry — unlike `for`, which pushes a plain frame
+    MetaIteratorNative,
+    /// the inner block is the top level of a module file; `import` runs it with `Vm::run` (nested entry)
+    Import,
 }
 
 const SAME_ENTRY: &[Layer] = &[
@@ -211,6 +239,8 @@ const NESTED_ENTRY: &[Layer] = &[
     Layer::GenFor,
     Layer::GenNext,
     Layer::MetaNext,
+    Layer::MetaIteratorNative,
+    Layer::Import,
 ];
 
 impl Layer {
@@ -363,7 +393,7 @@ fn render_spin(spin: Spin, bound: Option<u32>, d: usize, out: &mut Vec<String>) 
 }
 
 /// Render layers[k..] around the spin at indentation depth d.
-fn render(shape: &Shape, k: usize, d: usize, out: &mut Vec<String>) {
+fn render(shape: &Shape, k: usize, d: usize, out: &mut Vec<String>, mods: &mut Vec<(String, String)>) {
     if k == shape.layers.len() {
         render_spin(shape.spin, shape.bound, d, out);
         return;
@@ -375,7 +405,7 @@ fn render(shape: &Shape, k: usize, d: usize, out: &mut Vec<String>) {
     match shape.layers[k] {
         Layer::Try => {
             out.push(format!("{p}try"));
-            render(shape, k + 1, d + 1, out);
+            render(shape, k + 1, d + 1, out, mods);
             out.push(format!("{p}catch _"));
             out.push(format!("{q}emit 'h', {id}"));
         }
@@ -384,20 +414,20 @@ fn render(shape: &Shape, k: usize, d: usize, out: &mut Vec<String>) {
             out.push(format!("{p}while n{id} < 2"));
             out.push(format!("{q}n{id} += 1"));
             out.push(format!("{q}try"));
-            render(shape, k + 1, d + 2, out);
+            render(shape, k + 1, d + 2, out, mods);
             out.push(format!("{q}catch _"));
             out.push(format!("{r}emit 'h', {id}"));
         }
         Layer::Fn => {
             out.push(format!("{p}f{id} = ||"));
-            render(shape, k + 1, d + 1, out);
+            render(shape, k + 1, d + 1, out, mods);
             out.push(format!("{q}{id}"));
             out.push(format!("{p}z{id} = f{id}()"));
         }
         Layer::FnArgs => {
             out.push(format!("{p}c{id} = {id}"));
             out.push(format!("{p}f{id} = |a, b = 2, rest...|"));
-            render(shape, k + 1, d + 1, out);
+            render(shape, k + 1, d + 1, out, mods);
             out.push(format!("{q}a + b + c{id}"));
             out.push(format!("{p}z{id} = f{id} 1, 2, 3, 4"));
         }
@@ -405,7 +435,7 @@ fn render(shape: &Shape, k: usize, d: usize, out: &mut Vec<String>) {
             out.push(format!("{p}o{id} ="));
             out.push(format!("{q}k: {id}"));
             out.push(format!("{q}run: ||"));
-            render(shape, k + 1, d + 2, out);
+            render(shape, k + 1, d + 2, out, mods);
             out.push(format!("{r}self.k"));
             out.push(format!("{p}z{id} = o{id}.run()"));
         }
@@ -421,6 +451,7 @@ fn render(shape: &Shape, k: usize, d: usize, out: &mut Vec<String>) {
         | Layer::DerivedGe
         | Layer::DerivedNe
         | Layer::Display
+        | Layer::MetaIteratorNative
         | Layer::MetaNext => {
             let (key, args, tail, usage): (&str, &str, String, String) = match shape.layers[k] {
                 Layer::MetaCall => ("@call", "||", format!("{id}"), format!("z{id} = o{id}()")),
@@ -436,11 +467,12 @@ fn render(shape: &Shape, k: usize, d: usize, out: &mut Vec<String>) {
                 Layer::DerivedNe => ("@==", "|rhs|", "true".into(), format!("z{id} = o{id} != 1")),
                 Layer::Display => ("@display", "||", "'d'".into(), format!("z{id} = \"<{{o{id}}}>\"")),
                 Layer::MetaNext => ("@next", "||", "null".into(), format!("for v{id} in o{id}\n{q}()")),
+                Layer::MetaIteratorNative => ("@iterator", "||", "(1, 2)".into(), format!("z{id} = iterator.count o{id}")),
                 _ => unreachable!(),
             };
             out.push(format!("{p}o{id} ="));
             out.push(format!("{q}{key}: {args}"));
-            render(shape, k + 1, d + 2, out);
+            render(shape, k + 1, d + 2, out, mods);
             out.push(format!("{r}{tail}"));
             for l in usage.split('\n') {
                 out.push(format!("{p}{l}"));
@@ -457,13 +489,20 @@ fn render(shape: &Shape, k: usize, d: usize, out: &mut Vec<String>) {
                 _ => unreachable!(),
             };
             out.push(format!("{p}{head}"));
-            render(shape, k + 1, d + 1, out);
+            render(shape, k + 1, d + 1, out, mods);
             out.push(format!("{q}{tail}"));
             out.push(format!("{p}{close}"));
         }
+        Layer::Import => {
+            let mut m = vec![];
+            render(shape, k + 1, 0, &mut m, mods);
+            m.push(format!("export loaded{id} = {id}"));
+            mods.push((format!("m{id}"), m.join("\n") + "\n"));
+            out.push(format!("{p}import m{id}"));
+        }
         Layer::GenFor | Layer::GenNext => {
             out.push(format!("{p}g{id} = ||"));
-            render(shape, k + 1, d + 1, out);
+            render(shape, k + 1, d + 1, out, mods);
             out.push(format!("{q}yield {id}"));
             if shape.layers[k] == Layer::GenFor {
                 out.push(format!("{p}for v{id} in g{id}()"));
@@ -475,13 +514,69 @@ fn render(shape: &Shape, k: usize, d: usize, out: &mut Vec<String>) {
     }
 }
 
-fn script_of(shape: &Shape) -> String {
+/// a generated program: the main script and the module files it imports (name, text)
+#[derive(Clone, Debug)]
+struct Rendered {
+    main: String,
+    mods: Vec<(String, String)>,
+}
+
+fn rendered(shape: &Shape) -> Rendered {
     let mut out = vec![];
-    render(shape, 0, 0, &mut out);
+    let mut mods = vec![];
+    render(shape, 0, 0, &mut out, &mut mods);
     if shape.bound.is_some() {
         out.push("'done'".to_string());
     }
-    out.join("\n") + "\n"
+    Rendered { main: out.join("\n") + "\n", mods }
+}
+
+/// the whole program as one text (for keys, samples and replay files): main script, then each
+/// module behind a `# ---- module <name>.koto` line
+fn script_of(shape: &Shape) -> String {
+    let r = rendered(shape);
+    let mut s = r.main;
+    for (name, text) in r.mods {
+        s.push_str(&format!("# ---- module {}.koto\n{}", name, text));
+    }
+    s
+}
+
+/// split the text produced by `script_of` back into main script and modules
+fn split_program(text: &str) -> Rendered {
+    let mut main = String::new();
+    let mut mods: Vec<(String, String)> = vec![];
+    for line in text.split_inclusive('\n') {
+        if let Some(rest) = line.strip_prefix("# ---- module ") {
+            mods.push((rest.trim().trim_end_matches(".koto").to_string(), String::new()));
+        } else if let Some(m) = mods.last_mut() {
+            m.1.push_str(line);
+        } else {
+            main.push_str(line);
+        }
+    }
+    Rendered { main, mods }
+}
+
+/// Run a program text (see `script_of`): programs with modules are written to a fresh directory
+/// under the scratch directory and compiled with that script path, so that `import` finds them.
+fn run_program(w: &mut Worker, limit: &str, program: &str, kill_ms: u64) -> RunRes {
+    let r = split_program(program);
+    if r.mods.is_empty() {
+        return run_spec(w, limit, &r.main, None, kill_ms);
+    }
+    let base = std::env::var("VERIF_SCRATCH").map(std::path::PathBuf::from).unwrap_or_else(|_| std::env::temp_dir());
+    static SEQ: AtomicUsize = AtomicUsize::new(0);
+    let dir = base.join(format!("c08-prog-{}-{}", std::process::id(), SEQ.fetch_add(1, Ordering::SeqCst)));
+    let _ = std::fs::create_dir_all(&dir);
+    for (name, text) in &r.mods {
+        let _ = std::fs::write(dir.join(format!("{}.koto", name)), text);
+    }
+    let main_path = dir.join("main.koto");
+    let _ = std::fs::write(&main_path, &r.main);
+    let res = run_spec(w, limit, &r.main, Some(&main_path.to_string_lossy()), kill_ms);
+    let _ = std::fs::remove_dir_all(&dir);
+    res
 }
 
 /// The abstract call stack at the moment the timeout is detected (top first), as the model's
@@ -517,7 +612,8 @@ fn deliver_request(shape: &Shape) -> String {
     s
 }
 
-/// generation filter for the shape of F-C08-1: some handler lies below (outside) a nested entry
+/// the shape of the repaired finding F-C08-1 (statistics only): some handler lies below (outside) a
+/// nested entry
 fn has_handler_below_nested(shape: &Shape) -> bool {
     let mut seen_handler = false;
     for l in &shape.layers {
@@ -582,7 +678,17 @@ fn parse_run(raw: &str) -> Option<RunOut> {
 }
 
 fn run_in(w: &mut Worker, limit_ms: u64, script: &str, kill_ms: u64) -> RunRes {
-    match w.request(&format!("run {} {}", limit_ms, kvh::hex(script.as_bytes())), Duration::from_millis(kill_ms)) {
+    run_program(w, &limit_ms.to_string(), script, kill_ms)
+}
+
+/// `limit`: see `parse_limit`; `path`: script path handed to the compiler (imports resolve next to it)
+fn run_spec(w: &mut Worker, limit: &str, script: &str, path: Option<&str>, kill_ms: u64) -> RunRes {
+    let mut req = format!("run {} {}", limit, kvh::hex(script.as_bytes()));
+    if let Some(p) = path {
+        req.push(' ');
+        req.push_str(&kvh::hex(p.as_bytes()));
+    }
+    match w.request(&req, Duration::from_millis(kill_ms)) {
         Reply::Ok(s) => match parse_run(&s) {
             Some(o) => RunRes::Done(o),
             None => RunRes::Died(format!("unparsable worker reply: {}", s)),
@@ -622,7 +728,7 @@ fn pool_run<J: Sync, R: Send>(n: usize, jobs: &[J], f: impl Fn(&mut Worker, &J) 
 struct Case {
     shape: Shape,
     limit_ms: u64,
-    family: &'static str, // "sweep" | "F-C08-1"
+    family: &'static str, // "sweep" | "handler-below-nested-entry" (the shape of the repaired F-C08-1)
 }
 
 #[derive(Clone, Debug)]
@@ -907,7 +1013,7 @@ fn gen_cases(rng: &mut Rng, thorough: bool) -> Vec<Case> {
     };
     let push = |cases: &mut Vec<Case>, layers: Vec<Layer>, spin: Spin, limit: u64| {
         let shape = Shape { layers, spin, bound: None };
-        let family = if has_handler_below_nested(&shape) { "F-C08-1" } else { "sweep" };
+        let family = if has_handler_below_nested(&shape) { "handler-below-nested-entry" } else { "sweep" };
         cases.push(Case { shape, limit_ms: limit, family });
     };
     let wrappers: Vec<Layer> = SAME_ENTRY.iter().chain(NESTED_ENTRY.iter()).copied().collect();
@@ -950,7 +1056,8 @@ fn gen_cases(rng: &mut Rng, thorough: bool) -> Vec<Case> {
             }
         }
     }
-    // random compositions (F-C08-1 shape filtered out: generation filter, not a suppression rule)
+    // random compositions (since the repair of F-C08-1 nothing is filtered out: handlers may lie
+    // anywhere relative to nested entries)
     let n_random = if thorough { 1000 } else { 24 };
     let mut made = 0;
     let mut attempts = 0;
@@ -968,9 +1075,6 @@ fn gen_cases(rng: &mut Rng, thorough: bool) -> Vec<Case> {
             layers.push(l);
         }
         let shape = Shape { layers: layers.clone(), spin: *rng.pick(SPINS), bound: None };
-        if has_handler_below_nested(&shape) {
-            continue;
-        }
         if layers.iter().filter(|l| **l == Layer::TryRetry).count() > 1 {
             continue;
         }
@@ -978,7 +1082,8 @@ fn gen_cases(rng: &mut Rng, thorough: bool) -> Vec<Case> {
         push(&mut cases, layers, shape.spin, lim);
         made += 1;
     }
-    // the witness family of F-C08-1: a handler below a nested entry (model predicts `caught`)
+    // the former witness family of F-C08-1 (repaired in 5a7e832): a handler below a nested entry —
+    // the model now predicts `escaped` (not_catchable_nested); a swallowed timeout is a VIOLATION
     let fam_limit = 20;
     for (i, &w) in NESTED_ENTRY.iter().enumerate() {
         let sp = SPINS[i % SPINS.len()];
@@ -998,7 +1103,9 @@ fn gen_cases(rng: &mut Rng, thorough: bool) -> Vec<Case> {
 }
 
 fn file_cases(dir: &std::path::Path) -> Vec<(String, String, u64, String)> {
-    // corpus files: first lines `# limit_ms: N` and `# expect: timeout|swallowed|late|value`
+    // corpus files: first lines `# limit_ms: N` and `# expect: timeout|late` (`late` = witness of
+    // F-C08-2; `swallowed` was the witness kind of the repaired F-C08-1); modules follow the main
+    // script behind `# ---- module <name>.koto` lines
     let mut v = vec![];
     if let Ok(rd) = std::fs::read_dir(dir) {
         let mut ps: Vec<_> = rd.filter_map(|e| e.ok()).map(|e| e.path()).collect();
@@ -1034,11 +1141,11 @@ fn main() {
     if std::env::args().nth(1).as_deref() == Some("--probe-file") {
         let a: Vec<String> = std::env::args().collect();
         let src = std::fs::read_to_string(&a[2]).expect("script file");
-        let lim: u64 = a.get(3).and_then(|x| x.parse().ok()).unwrap_or(50);
+        let lim: String = a.get(3).cloned().unwrap_or("50".into());
         let kill: u64 = a.get(4).and_then(|x| x.parse().ok()).unwrap_or(10_000);
         let mut w = Worker::spawn(&worker_args());
         for part in src.split("\n---\n") {
-            let r = run_in(&mut w, lim, part, kill);
+            let r = run_spec(&mut w, &lim, part, std::env::var("C08_SCRIPT_PATH").ok().as_deref(), kill);
             println!("=== {}\n--> {}", part.trim_end(), res_json(&r));
         }
         return;
@@ -1290,9 +1397,9 @@ fn main() {
                 cx.viol_k("K:C08:driver", json!({"what": "model driver gave no prediction", "request": deliver_request(&c.shape), "response": pred}));
                 continue;
             }
-            // the generation filter and the model must agree on what the F-C08-1 shape is
-            if (c.family == "F-C08-1") != pred.starts_with("caught") {
-                cx.viol_k("K:C08:shape-filter", json!({"what": "generation filter for the F-C08-1 shape disagrees with the model's prediction (timeout_caught_iff)", "request": deliver_request(&c.shape), "response": pred, "family": c.family}));
+            // Props/C08 not_catchable_nested: the executable model must say `escaped` for every stack
+            if pred != "escaped" {
+                cx.viol_k("K:C08:Model.Timeout.deliver", json!({"what": "the model driver predicts a caught timeout although not_catchable_nested proves `escaped` for every stack (driver and theorem file out of sync)", "request": deliver_request(&c.shape), "response": pred}));
             }
             judge(&mut cx, c, pred, res);
         }
@@ -1368,6 +1475,61 @@ fn main() {
                 }
                 _ => cx.viol_d("C08:terminating-differs", json!({"what": "a terminating script hung or killed the worker", "detail": detail})),
             }
+        }
+    }
+
+    // ---- extreme limits: a terminating script is unaffected by the limit, whatever its size -----
+    {
+        // (limit spec, representable: `Instant::now() + limit` exists)
+        let specs: &[(&str, bool)] = &[
+            ("3600s", true),
+            ("1000000000s", true),          // ≈ 31 years
+            ("9000000000000000000s", true), // just below i64::MAX seconds
+            ("9223372036854775807s", false), // now + limit overflows the clock's range
+            ("max", false),                 // Duration::MAX
+        ];
+        let shapes = [
+            Shape { layers: vec![], spin: Spin::WhileTrue, bound: Some(200) },
+            Shape { layers: vec![Layer::Try, Layer::Each, Layer::Fn], spin: Spin::LoopHelper, bound: Some(100) },
+            Shape { layers: vec![Layer::OpAdd, Layer::GenFor], spin: Spin::ForEndlessGen, bound: Some(50) },
+        ];
+        let mut jobs: Vec<(String, &str, bool)> = vec![];
+        for sh in &shapes {
+            for (spec, ok) in specs {
+                jobs.push((script_of(sh), *spec, *ok));
+            }
+        }
+        let results = pool_run(n_workers, &jobs, |w, (script, spec, _)| {
+            let a = run_program(w, "0", script, 60_000);
+            let b = run_program(w, spec, script, 60_000);
+            (a, b)
+        });
+        let mut f3 = 0u64;
+        for ((script, spec, representable), (a, b)) in jobs.iter().zip(results.iter()) {
+            cx.rep.case(&format!("extreme-limit {} {}", spec, script), true);
+            cx.rep.bump("family=extreme-limit");
+            let same = match (a, b) {
+                (RunRes::Done(x), RunRes::Done(y)) => x.outcome == y.outcome && x.trace == y.trace && y.probe == PROBE_EXPECT && x.outcome.starts_with("ok:"),
+                _ => false,
+            };
+            if same {
+                continue;
+            }
+            let panic_msg = match b {
+                RunRes::Done(y) => y.outcome.strip_prefix("panic:").and_then(kvh::unhex).map(|m| String::from_utf8_lossy(&m).to_string()),
+                _ => None,
+            };
+            let is_f3 = !*representable && panic_msg.as_deref().is_some_and(|m| m.contains("overflow when adding duration to instant"));
+            let detail = json!({"script": script, "script_hex": kvh::hex(script.as_bytes()), "limit": spec, "unlimited": res_json(a), "limited": res_json(b), "panic": panic_msg});
+            if is_f3 && cx.is_open("F-C08-3") {
+                f3 += 1;
+            } else {
+                cx.viol_d("C08:terminating-differs", json!({"what": "a terminating script behaves differently (or the host panics) under a very large execution limit", "detail": detail}));
+            }
+        }
+        if f3 > 0 {
+            cx.rep.known("F-C08-3", &format!("{} terminating runs with an execution limit that `Instant::now() + limit` cannot represent (Duration::MAX, i64::MAX seconds) panic 'overflow when adding duration to instant' in ExecutionTimeout::new; the instance panics on every later run too", f3));
+            cx.rep.bump_by("attributed_to_F-C08-3", f3);
         }
     }
 
